@@ -410,6 +410,102 @@ def field_writers(view, adt):
     return out
 
 
+FN_TRAITS = ("core::ops::Fn", "core::ops::FnMut", "core::ops::FnOnce")
+
+
+def r_must_consult_callback(view, dpaths):
+    """in each instance of the given generic functions, every path from entry to `return` calls the callback
+    (a call through Fn/FnMut/FnOnce); a path that returns without it decides the result alone"""
+    hits = []
+    n = 0
+    for m in view.mono.values():
+        if m.get("dpath") not in dpaths or "blocks" not in m:
+            continue
+        n += 1
+        blocks = m["blocks"]
+        cb_blocks = set()
+        for i, b in enumerate(blocks):
+            t = b["t"]
+            if t["k"] == "call" and nz(t.get("trait")) in FN_TRAITS:
+                cb_blocks.add(i)
+        if not cb_blocks:
+            hits.append(Hit(m["dpath"], "no call through its callback at all in instance %s" % m["name"][:80], m.get("span")))
+            continue
+        seen, work = set(), [0]
+        bad = None
+        while work:
+            i = work.pop()
+            if i in seen:
+                continue
+            seen.add(i)
+            if i in cb_blocks:
+                continue          # paths through the callback are fine: do not follow
+            t = blocks[i]["t"]
+            k = t["k"]
+            if k == "return":
+                bad = i
+                break
+            if k == "goto":
+                work.append(t["t"])
+            elif k == "switch":
+                work.extend(a[1] for a in t["arms"])
+                work.append(t["otherwise"])
+            elif k in ("call", "assert", "drop") and t.get("t") is not None:
+                work.append(t["t"])
+        if bad is not None:
+            hits.append(Hit(m["dpath"], "a path reaches `return` (bb%d) without calling the callback" % bad, m.get("span")))
+    return hits, n
+
+
+def r_heapvec_capacity(view, root_names, min_cap):
+    """alloc configurations: every reachable function that constructs a HeapVec reserves at least BIGINT_LIMBS
+    (shl_limbs consults capacity() and reports failure beyond it, so a smaller reservation turns valid input into a panic)"""
+    roots = [view.mono_roots[n] for n in root_names if n in view.mono_roots]
+    reach = mono_reach(view.mono, roots)
+    hits = []
+    n = 0
+    for i in sorted(reach):
+        m = view.mono[i]
+        builds = False
+        caps = []
+        for b in m.get("blocks", []):
+            for st in b["s"]:
+                if st["k"] == "assign" and st["rv"]["rv"] == "agg":
+                    k = st["rv"]["kind"]
+                    if k.get("agg") == "adt" and k.get("name", "").endswith("heapvec::HeapVec"):
+                        builds = True
+            t = b["t"]
+            if t["k"] == "call" and nz(t.get("name", "")).endswith("Vec::<T>::with_capacity"):
+                a0 = t["args"][0] if t["args"] else {}
+                c = a0.get("const", {})
+                caps.append(int(c["v"]) if "v" in c else None)
+        if builds:
+            n += 1
+            if not caps or any(c is None or c < min_cap for c in caps):
+                hits.append(Hit(m["dpath"], "constructs a HeapVec without reserving BIGINT_LIMBS=%d (with_capacity arguments: %s)" % (min_cap, caps), m.get("span")))
+    return hits, n
+
+
+def r_wrapping_arith(view, prefix, allowed):
+    """calls to wrapping_* integer arithmetic inside the given module, outside the audited idiom list"""
+    hits = []
+    n = 0
+    for b in view.bodies:
+        d = b.get("dpath", "")
+        if not d.startswith(prefix):
+            continue
+        for c in b["calls"]:
+            nm = nz(c["name"])
+            if nm.startswith("core::num::") and "::wrapping_" in nm:
+                n += 1
+                if "<impl usize>" in nm:
+                    continue        # index arithmetic (its result is bounds-checked where it is used): not limb arithmetic
+                key = (d, c["span"]["snip"])
+                if key not in allowed:
+                    hits.append(Hit(d, "wrapping arithmetic `%s` (%s)" % (c["span"]["snip"][:70], nm.rsplit("::", 1)[-1]), c["span"]))
+    return hits, n
+
+
 # ---------------------------------------------------------------------------
 def hits_to_obs(rule_id, rule_text, hits, scanned, group_prefix=""):
     """library side: each hit is a failing obligation; plus one summary obligation."""
